@@ -1,3 +1,4 @@
 //! Helpers that know about `prio` (shared by several property binaries).
 pub mod flpkit;
 pub mod ints;
+pub mod vdafkit;
